@@ -637,7 +637,10 @@ def r7(ctx, rep):
     P = ora("prql_std.json")
     syn = ctx.syn
     f = syn.fn("static_eval::static_eval_rq_operator", crate="prqlc")
-    m = tables.first_match(f, "name.as_str()")
+    # the folding table: the match on the operator name whose arms return folded literals (not e.g. a table of arities)
+    cands = [x for x in matches_of(f["body"]) if show(x["e"]) == "name.as_str()"]
+    cands = [x for x in cands if any(r.get("k") == "return" for a_ in x["arms"] for r in walk(a_["body"]))] or cands
+    m = max(cands, key=lambda x: len(x["arms"])) if cands else tables.first_match(f, "name.as_str()")
     seen = set()
     for head, g, body, line, _ in tables.match_rows(m):
         if not (isinstance(head, tuple) and head[0] == "lit"):
